@@ -850,9 +850,14 @@ class Surface:
             r, t = cart_to_polar(x, y, vec_to_grid=False)
             c, k, dx, dy = params['c'], params['k'], params['dx'], params['dy']
             z = off_axis_conic_sag(c, k, r, t, dx=dx, dy=dy)
-            dr, dt = off_axis_conic_der(c, k, r, t, dx=dx, dy=dy)
-            ddx, ddy = surface_normal_from_cylindrical_derivatives(dr, dt, r, t)
-            return z, ddx, ddy
+            # the section is not symmetric about its own origin and its polar
+            # derivatives do not determine the gradient at r=0 (NaN from 1/r);
+            # use the Cartesian gradient of the shifted parent conic,
+            # c / phi * (x+dx, y+dy), which has no pole
+            xx = x + dx
+            yy = y + dy
+            phi = np.sqrt(1 - (1 + k) * c * c * (xx * xx + yy * yy))
+            return z, c * xx / phi, c * yy / phi
 
         return cls(typ=typ, P=P, n=n, FFp=FFp, R=R, params=params, bounding=bounding)
 
